@@ -181,6 +181,64 @@ def tables() -> dict:
                     text = "".join(v.value if isinstance(v, ast.Constant) else "{}" for v in sub.values)
                     if "cls." in text and text.lstrip().startswith("if") and text.rstrip().endswith(":"):
                         guards.append((node.name, text))
+    # --- lazy compilation (C14): stub condition, baked arguments, forwarded flags ------------
+    import re as _re
+
+    def _fn(name):
+        for node in ast.walk(btree):
+            if isinstance(node, ast.FunctionDef) and node.name == name:
+                return node
+        return None
+
+    def _stub_conds(name):
+        fn = _fn(name)
+        for st in (fn.body if fn else []):
+            if isinstance(st, ast.If) and isinstance(st.test, ast.BoolOp) and isinstance(st.test.op, ast.And):
+                calls = [ast.unparse(x) for x in ast.walk(st) if isinstance(x, ast.Call)]
+                if any("_lines_lazy" in c for c in calls):
+                    return [ast.unparse(v) for v in st.test.values]
+        return []
+
+    def _stub_kwargs(name):
+        fn = _fn(name)
+        text = ""
+        fwd = False
+        for sub in ast.walk(fn) if fn else []:
+            if isinstance(sub, ast.Call) and ast.unparse(sub.func) == "self.add_line":
+                a = sub.args[0]
+                if isinstance(a, ast.JoinedStr):
+                    tx = "".join(v.value if isinstance(v, ast.Constant) else "{}" for v in a.values)
+                elif isinstance(a, ast.Constant):
+                    tx = str(a.value)
+                else:
+                    tx = ""
+                if tx.startswith("CodeBuilder("):
+                    text = tx
+            if isinstance(sub, ast.Call) and ast.unparse(sub.func) in ("self.get_unpack_method_flags", "self.get_pack_method_flags"):
+                for kw in sub.keywords:
+                    if kw.arg in ("pass_decoder", "pass_encoder") and isinstance(kw.value, ast.Constant) and kw.value.value is True:
+                        fwd = True
+        return _re.findall(r"(\w+)=", text), fwd, ("allow_postponed_evaluation=False" in text)
+
+    def _reraise_disj(name):
+        fn = _fn(name)
+        for sub in ast.walk(fn) if fn else []:
+            if isinstance(sub, ast.ExceptHandler) and sub.type is not None and ast.unparse(sub.type) == "UnresolvedTypeReferenceError":
+                for st in sub.body:
+                    if isinstance(st, ast.If) and any(isinstance(x, ast.Raise) for x in st.body):
+                        if isinstance(st.test, ast.BoolOp) and isinstance(st.test.op, ast.Or):
+                            return [ast.unparse(v) for v in st.test.values]
+                        return [ast.unparse(st.test)]
+        return []
+
+    t["lazyReraiseUnpack"] = _reraise_disj("_add_unpack_method_lines")
+    t["lazyReraisePack"] = _reraise_disj("_add_pack_method_lines")
+    t["lazyStubCondsUnpack"] = _stub_conds("_add_unpack_method_lines")
+    t["lazyStubCondsPack"] = _stub_conds("_add_pack_method_lines")
+    t["lazyKwargsUnpack"], fu, du = _stub_kwargs("_add_unpack_method_lines_lazy")
+    t["lazyKwargsPack"], fp, dp = _stub_kwargs("_add_pack_method_lines_lazy")
+    t["lazyForwardCoder"] = bool(fu and fp)
+    t["lazyStubAllowPostponed"] = not (du and dp)
     t["cacheGuards"] = guards
     t["cacheGuardOwnDict"] = len(guards) == 2 and all(g[1] == "if not '{}' in cls.__dict__:" for g in guards)
     return t
@@ -225,6 +283,10 @@ def render(t: dict) -> str:
         + lean_list(t["spliceSites"], lambda s: "{ file := %s, line := %d, var := %s, conv := %s, quoted := %s }" % (lean_str(s["file"]), s["line"], lean_str(s["var"]), lean_str(s["conv"]), "true" if s["quoted"] else "false"))
     )
     L.append("")
+    for k in ("lazyStubCondsUnpack", "lazyStubCondsPack", "lazyReraiseUnpack", "lazyReraisePack", "lazyKwargsUnpack", "lazyKwargsPack"):
+        L.append(f"def {k} : List String := {lean_list(t[k])}")
+    L.append("def lazyForwardCoder : Bool := " + ("true" if t["lazyForwardCoder"] else "false"))
+    L.append("def lazyStubAllowPostponed : Bool := " + ("true" if t["lazyStubAllowPostponed"] else "false"))
     L.append("/-- the dialect caches are created under `if not '<cache>' in cls.__dict__:` (own namespace only) -/")
     L.append("def cacheGuardOwnDict : Bool := " + ("true" if t["cacheGuardOwnDict"] else "false"))
     L.append("def cacheGuards : List (String × String) := " + lean_list(t["cacheGuards"], lambda g: f"({lean_str(g[0])}, {lean_str(g[1])})"))
